@@ -1,13 +1,21 @@
 #!/bin/bash
-# seed_matrix.sh: apply every stored seed to /repo in turn, run the check of its property, record the outcome
-# in seeded/MATRIX.txt (exit code and VIOLATION lines).  /repo is restored after each seed.
-cd /verif
-out=seeded/MATRIX.txt; : > $out
+# seed_matrix.sh [i n]: apply every stored seed (shard i of n: every n-th seed starting at the i-th) to the repository
+# ($VERIF_REPO, default /repo) in turn, run the check of its property, record the outcome (exit code and VIOLATION lines).
+# The repository is restored after each seed.  Without arguments: all seeds, result in seeded/MATRIX.txt; with a shard:
+# seeded/MATRIX.part<i>.txt (sort -V the parts together).  Independent lanes (a copy of this tree next to a scratch
+# worktree of the repository, VERIF_REPO pointing at it) can run different shards at the same time.
+V="$(cd "$(dirname "$0")/.." && pwd)"; cd $V
+i=${1:-0}; n=${2:-1}
+out=seeded/MATRIX.txt; [ $n -gt 1 ] && out=seeded/MATRIX.part$i.txt
+: > $out
+k=0
 for d in seeded/*/; do
+  k=$((k+1)); [ $(( (k-1) % n )) -eq $i ] || continue
   id=$(basename $d); prop=${id:0:3}
   p=$d/patch.diff; [ -f $d/patch_rebased.diff ] && p=$d/patch_rebased.diff
-  r=$(tools/seed_run.sh /verif/$p $prop 2>&1)
+  r=$(tools/seed_run.sh $V/$p $prop 2>&1)
   code=$(echo "$r" | grep -o "exit=[0-9]*" | tail -1)
+  [ -z "$code" ] && code=$(echo "$r" | grep -o "PATCH-DOES-NOT-APPLY" | head -1)
   viol=$(echo "$r" | grep "^VIOLATION" | sed 's/.*replay=.*\/out\///' | tr '\n' ' ')
   echo "$id $code $viol" | tee -a $out
 done
